@@ -25,6 +25,7 @@ import (
 	"os"
 	"path/filepath"
 	"sort"
+	"strconv"
 	"strings"
 )
 
@@ -41,6 +42,7 @@ type report struct {
 	GoStmts      int            `json:"go_statements_rewritten"`
 	Selects      int            `json:"reflect_select_calls_rewritten"`
 	ChanYields   int            `json:"channel_method_yields_inserted"`
+	NativeSel    int            `json:"native_select_statements_rewritten"`
 	Unrewritten  []string       `json:"unrewritten_sync_sites"`
 	Files        map[string]int `json:"edits_per_file"`
 	AccessSites  []string       `json:"access_sites"`
@@ -206,13 +208,14 @@ func isSyncMutex(e ast.Expr) bool {
 }
 
 type rewriter struct {
-	fi       *fileInfo
-	fset     *token.FileSet
-	rep      *report
-	edits    []edit
-	usesSim  bool
-	fresh    map[string]bool
-	tmpCount int
+	fi           *fileInfo
+	fset         *token.FileSet
+	rep          *report
+	edits        []edit
+	usesSim      bool
+	fresh        map[string]bool
+	tmpCount     int
+	needGenerics bool
 }
 
 func (rw *rewriter) off(p token.Pos) int { return rw.fset.Position(p).Offset }
@@ -296,6 +299,9 @@ func (rw *rewriter) rewrite() {
 			}
 		}
 	}
+
+	// R6 (after R5: a yield inserted in front of a select statement must sort before its replacement)
+	rw.nativeSelects(f)
 
 	if rw.usesSim {
 		end := rw.off(f.Name.End())
@@ -665,4 +671,108 @@ func (rw *rewriter) chanYields(body *ast.BlockStmt) {
 		}
 	}
 	walk(body.List)
+}
+
+// nativeSelects is R6: a select statement with two or more communication clauses lets the Go runtime pick at
+// random among the ready ones. It is rewritten into simrt.Select (the seam R4 already uses) followed by a switch
+// on the chosen index, so that the choice comes from the case's choice list. Selects with a single communication
+// clause (the interpreter's `case <-ctx.Done(): ... default:` polls) are deterministic and stay as they are.
+// Only clause headers are edited; clause bodies keep their text, so nested rewrites compose.
+func (rw *rewriter) nativeSelects(f *ast.File) {
+	labeled := map[ast.Stmt]bool{}
+	ast.Inspect(f, func(n ast.Node) bool {
+		if l, ok := n.(*ast.LabeledStmt); ok {
+			labeled[l.Stmt] = true
+		}
+		return true
+	})
+	ast.Inspect(f, func(n ast.Node) bool {
+		sel, ok := n.(*ast.SelectStmt)
+		if !ok {
+			return true
+		}
+		comm := 0
+		for _, c := range sel.Body.List {
+			if c.(*ast.CommClause).Comm != nil {
+				comm++
+			}
+		}
+		if comm < 2 {
+			return true
+		}
+		if labeled[sel] {
+			rw.rep.Degraded = append(rw.rep.Degraded, rw.where(sel.Pos())+" labeled select statement with several clauses left to the runtime's random choice")
+			return true
+		}
+		sfx := strconv.Itoa(rw.off(sel.Pos()))
+		pre := "{ "
+		var cases []string
+		type hdr struct {
+			start, end int
+			text       string
+		}
+		var hdrs []hdr
+		for i, c := range sel.Body.List {
+			cc := c.(*ast.CommClause)
+			idx := strconv.Itoa(i)
+			cv := "__c" + sfx + "_" + idx
+			h := hdr{rw.off(cc.Pos()), rw.off(cc.Colon) + 1, "case " + idx + ":"}
+			switch x := cc.Comm.(type) {
+			case nil:
+				cases = append(cases, "simrt.DefaultCase()")
+			case *ast.SendStmt:
+				pre += cv + " := " + rw.text(x.Chan) + "; "
+				cases = append(cases, "simrt.SendCase("+cv+", "+rw.text(x.Value)+")")
+			case *ast.ExprStmt:
+				u, ok := x.X.(*ast.UnaryExpr)
+				if !ok {
+					rw.rep.Problems = append(rw.rep.Problems, rw.where(cc.Pos())+" select clause not understood")
+					return true
+				}
+				pre += cv + " := " + rw.text(u.X) + "; "
+				cases = append(cases, "simrt.RecvCase("+cv+")")
+			case *ast.AssignStmt:
+				u, ok := x.Rhs[0].(*ast.UnaryExpr)
+				if !ok || len(x.Rhs) != 1 {
+					rw.rep.Problems = append(rw.rep.Problems, rw.where(cc.Pos())+" select clause not understood")
+					return true
+				}
+				pre += cv + " := " + rw.text(u.X) + "; "
+				cases = append(cases, "simrt.RecvCase("+cv+")")
+				var lhs []string
+				for _, l := range x.Lhs {
+					lhs = append(lhs, rw.text(l))
+				}
+				rhs := "simrt.RecvVal(" + cv + ", __sv" + sfx + ")"
+				if len(lhs) == 2 {
+					rhs += ", __sok" + sfx
+				}
+				h.text += " " + strings.Join(lhs, ", ") + " " + x.Tok.String() + " " + rhs + ";"
+			default:
+				rw.rep.Problems = append(rw.rep.Problems, rw.where(cc.Pos())+" select clause not understood")
+				return true
+			}
+			hdrs = append(hdrs, h)
+		}
+		pre += "__si" + sfx + ", __sv" + sfx + ", __sok" + sfx + " := simrt.Select(simrt.Cases(" + strings.Join(cases, ", ") + ")); _, _ = __sv" + sfx + ", __sok" + sfx + "; switch __si" + sfx + " {"
+		rw.edits = append(rw.edits, edit{rw.off(sel.Pos()), rw.off(sel.Body.Lbrace) + 1, pre})
+		for _, h := range hdrs {
+			rw.edits = append(rw.edits, edit{h.start, h.end, h.text})
+		}
+		end := rw.off(sel.Body.Rbrace) + 1
+		rw.edits = append(rw.edits, edit{end, end, " }"})
+		rw.rep.NativeSel++
+		rw.usesSim = true
+		rw.needGenerics = true
+		return true
+	})
+	if rw.needGenerics {
+		// the helpers are generic and the module under test declares an old language version: a go:build line
+		// raises the language version of this one (overlaid) file
+		if strings.Contains(string(rw.fi.src[:rw.off(f.Package)]), "build") {
+			rw.rep.Problems = append(rw.rep.Problems, rw.fi.path+": has a build constraint already, cannot raise its language version for R6")
+		} else {
+			rw.edits = append(rw.edits, edit{0, 0, "//go:build go1.18\n\n"})
+		}
+	}
 }
